@@ -112,6 +112,7 @@ func (c *Client) Ping(quit <-chan struct{}) error {
 
 	// submit transaction
 	if err := c.write(quit, packetPINGREQ); err != nil {
+		verifHookPoint("ping:submit-failed")
 		select {
 		case <-c.pingAck: // unlock
 		default: // picked up by unrelated pong
